@@ -1,4 +1,5 @@
 import SeqVerif.Model.Pruning
+import SeqVerif.Model.PruningBorders
 import SeqVerif.Model.C14Consts
 /-!
 # C14 - time-range pruning never hides a document that lies in the requested range
@@ -7,10 +8,10 @@ Models: `SV.Bitmask` (util/bitmask.go, byte level), `SV.Dist` (seq/mids_distribu
 int64 re-interpretation of MIDs in `MID.Time()`), `SV.FracInfo` (frac/info.go, `Active.UpdateStats`, the collector's
 min/max), `SV.Pruning` (`List.FilterInRange`, `Fraction.Contains`, the reference scan over all documents).
 
-MIDs are `uint64`: every theorem that talks about a query end or a document MID assumes `< 2^64`.
-`SameSide qf qt` = both ends on one side of `2^63` (`MID.Time()` reads the MID as int64).  It holds for every
-range the proxy builds from two timestamps after 1970 and for `Contains(mid)`; `c14_wrap_counterexample` shows it
-cannot be dropped for the code as it is.
+MIDs are `uint64`: every theorem that talks about a query end assumes `< 2^64`; ranges are compared unsigned,
+as `getLIDsBorders` / `seq.Less` do.  `MID.Time()` reads the MID as int64; before fix c7b3453 a range with ends
+on different sides of `2^63` could hide a fraction (`c14_wrap_counterexample_before_fix`, reproduced on the real
+store); the model follows the fixed code and no theorem below carries a side condition for it.
 
 Only property theorems and extracted-fact obligations live in this file.
 -/
@@ -54,14 +55,12 @@ theorem c14_midToIndex_mono (f t b : Int) (hb : 0 < b) (hft : f ≤ t) (ms : Lis
 /-- **distribution soundness**: after `Add(m)` (among any other additions, in any order) every range `[qf, qt]`
 with `qf ≤ m ≤ qt` is reported as intersecting, without a panic. -/
 theorem c14_dist_sound (f t b : Int) (hb : 0 < b) (hft : f ≤ t) (ms : List Nat) (m qf qt : Nat)
-    (hm : m ∈ ms) (h1 : qf ≤ m) (h2 : m ≤ qt) (hqt : qt < 18446744073709551616) (hs : SameSide qf qt) :
+    (hm : m ∈ ms) (h1 : qf ≤ m) (h2 : m ≤ qt) (hqt : qt < 18446744073709551616) :
     Dist.isIntersecting? (ms.foldl Dist.add (Dist.new f t b)) qf qt = some true := by
   have hfold := bit_foldl_add (wf_new hb hft) ms
   rw [isIntersecting?_eq_some hfold.1]
   congr 1
-  apply isIntersecting_of_bit hfold.1
-    (toInt64_mono_of_sameSide h1 (by omega) (sameSide_left h1 h2 hs))
-    (toInt64_mono_of_sameSide h2 hqt (sameSide_right h1 h2 hs))
+  apply isIntersecting_of_bit_u hfold.1 h1 h2 hqt
   rw [hfold.2.1 m]
   exact hfold.2.2.2 m hm
 
@@ -69,6 +68,11 @@ theorem c14_dist_sound (f t b : Int) (hb : 0 < b) (hft : f ≤ t) (ms : List Nat
 example :
     Dist.isIntersecting? ([30000, 200000, 900000].foldl Dist.add (Dist.new 60000000000 240000000000 60000000000)) 150000 210000
       = some true := by decide
+
+/-- non-vacuity across `2^63`: document `2^63 + 5` (a time before 1970: underflow bucket), range `[150000, 2^64-1]` -/
+example :
+    Dist.isIntersecting? ([9223372036854775813].foldl Dist.add (Dist.new 60000000000 240000000000 60000000000))
+      150000 18446744073709551615 = some true := by decide
 
 /-- **the distribution is exact at bucket granularity**: a range is reported only if the bucket of some added MID
 lies between the buckets of its ends (so the check prunes whatever the buckets allow). -/
@@ -114,13 +118,13 @@ MIDs anywhere in uint64: far past, far future, equal to the range ends): the inf
 (`UpdateStats` per bulk, then `BuildDistribution` over the stub ID and all document IDs) reports every range
 `[qf, qt]` that holds one of the documents as intersecting. -/
 theorem c14_info_sound (ct : Nat) (bulks : List (List Nat)) (m qf qt : Nat)
-    (hm : m ∈ bulks.flatten) (h1 : qf ≤ m) (h2 : m ≤ qt) (hqt : qt < 18446744073709551616) (hs : SameSide qf qt) :
+    (hm : m ∈ bulks.flatten) (h1 : qf ≤ m) (h2 : m ≤ qt) (hqt : qt < 18446744073709551616) :
     FracInfo.isIntersecting (sealed consts ct bulks) qf qt = true := by
   have hcov := covers_foldl (covers_new ct) bulks
   simp only [List.nil_append] at hcov
   unfold sealed
   exact isIntersecting_build c14_x_good_consts hcov (by rw [foldl_appendBulk_dist]; rfl)
-    (fun x hx => List.mem_cons_of_mem _ hx) hm h1 h2 hqt hs
+    (fun x hx => List.mem_cons_of_mem _ hx) hm h1 h2 hqt
 
 /-- non-vacuity, with a distribution: creation at 10^12 ms, documents 20 min and 1 ms before creation -/
 example :
@@ -145,10 +149,10 @@ theorem c14_info_persist (ct : Nat) (hct : ct < 9223372036854775808) (bulks : Li
   exact persist_build c14_x_good_consts (by rw [foldl_appendBulk_dist]; rfl)
     (by rw [foldl_appendBulk_creationTime]; exact hct) _
 
-/-- `Contains(mid)` (the fetch path) never needs the side condition -/
+/-- `Contains(mid)` (the fetch path) -/
 theorem c14_contains_sound (ct : Nat) (bulks : List (List Nat)) (m : Nat) (hm : m ∈ bulks.flatten)
     (hlt : m < 18446744073709551616) : FracInfo.isIntersecting (sealed consts ct bulks) m m = true :=
-  c14_info_sound ct bulks m m m hm (Nat.le_refl _) (Nat.le_refl _) hlt (sameSide_self m)
+  c14_info_sound ct bulks m m m hm (Nat.le_refl _) (Nat.le_refl _) hlt
 
 /-! ## The property: pruning is a pure optimisation -/
 
@@ -170,29 +174,29 @@ theorem mem_flatten_map_fst {bulks : List (List (Nat × Nat))} {id : Nat × Nat}
   exact ⟨b.map Prod.fst, List.mem_map_of_mem hb, List.mem_map_of_mem hid⟩
 
 theorem sound_of_ok {f : Frac} (h : FracOK f) : Sound f := by
-  intro id hid qf qt h1 h2 hqt hs
+  intro id hid qf qt h1 h2 hqt
   cases h with
   | active ct bulks => exact c14_info_sound_active ct _ id.1 qf qt (mem_flatten_map_fst hid) h1 h2
-  | sealed ct bulks => exact c14_info_sound ct _ id.1 qf qt (mem_flatten_map_fst hid) h1 h2 hqt hs
+  | sealed ct bulks => exact c14_info_sound ct _ id.1 qf qt (mem_flatten_map_fst hid) h1 h2 hqt
   | loaded ct hct bulks info hp =>
     rw [c14_info_persist ct hct] at hp
     injection hp with hp
     subst hp
-    exact c14_info_sound ct _ id.1 qf qt (mem_flatten_map_fst hid) h1 h2 hqt hs
+    exact c14_info_sound ct _ id.1 qf qt (mem_flatten_map_fst hid) h1 h2 hqt
 
 /-- **C14.**  For every set of fractions (active, sealed, or restored from their persisted info) and every query
 range: examining only the fractions kept by `FilterInRange` finds exactly the documents that examining every
 document of every fraction finds (same documents, same order). -/
 theorem c14_pruned_eq_unpruned (fs : List Frac) (hok : ∀ f, f ∈ fs → FracOK f) (qf qt : Nat)
-    (hqt : qt < 18446744073709551616) (hs : SameSide qf qt) :
+    (hqt : qt < 18446744073709551616) :
     scanPruned fs qf qt = scanAll fs qf qt :=
-  scanPruned_eq (fun f hf => sound_of_ok (hok f hf)) hqt hs
+  scanPruned_eq (fun f hf => sound_of_ok (hok f hf)) hqt
 
 /-- **C14, fetch path.**  Every fraction that holds a requested ID survives both filters of `groupIDsByFraction`
-(`FilterInRange(minMID, maxMID)` over the request, then `Contains(id.MID)`), provided the smallest and largest
-requested MID lie on one side of `2^63`. -/
+(`FilterInRange(minMID, maxMID)` over the request, then `Contains(id.MID)`), whatever other IDs the request
+holds. -/
 theorem c14_fetch_candidates (fs : List Frac) (hok : ∀ f, f ∈ fs → FracOK f) (minMID maxMID : Nat) (id : Nat × Nat)
-    (h1 : minMID ≤ id.1) (h2 : id.1 ≤ maxMID) (hmax : maxMID < 18446744073709551616) (hs : SameSide minMID maxMID)
+    (h1 : minMID ≤ id.1) (h2 : id.1 ≤ maxMID) (hmax : maxMID < 18446744073709551616)
     (f : Frac) (hf : f ∈ holders fs id) : f ∈ candidates fs minMID maxMID id := by
   unfold holders at hf
   rw [List.mem_filter] at hf
@@ -200,8 +204,44 @@ theorem c14_fetch_candidates (fs : List Frac) (hok : ∀ f, f ∈ fs → FracOK 
   have hsound := sound_of_ok (hok f hf.1)
   unfold candidates filterInRange contains
   rw [List.mem_filter, List.mem_filter]
-  exact ⟨⟨hf.1, hsound id hid minMID maxMID h1 h2 hmax hs⟩,
-    hsound id hid id.1 id.1 (Nat.le_refl _) (Nat.le_refl _) (by omega) (sameSide_self _)⟩
+  exact ⟨⟨hf.1, hsound id hid minMID maxMID h1 h2 hmax⟩,
+    hsound id hid id.1 id.1 (Nat.le_refl _) (Nat.le_refl _) (by omega)⟩
+
+/-- **C14 with narrowing.**  Fractions with their ids tables (LID order = descending IDs, holding only IDs that were
+indexed into the fraction): pruning whole fractions by `FilterInRange` and then scanning, in every kept fraction,
+only the LIDs between `getLIDsBorders(from, to)` reaches exactly the IDs with `from ≤ MID ≤ to` of all fractions,
+in the same order.  Side conditions inherited from `SV.Borders.getLIDsBorders_exact` (C02): RIDs are uint64, and
+for `from = 0` no stored ID is `{0,0}`. -/
+theorem c14_narrowed_pruned_eq_unpruned (fs : List TFrac)
+    (hok : ∀ f, f ∈ fs → ∃ g, FracOK g ∧ g.info = f.info ∧ ∀ id, id ∈ f.tbl → (id.mid, id.rid) ∈ g.docs)
+    (hsorted : ∀ f, f ∈ fs → SV.Borders.SortedDesc f.tbl)
+    (hrid : ∀ f, f ∈ fs → ∀ id ∈ f.tbl, id.rid ≤ SV.Borders.maxU64)
+    (qf qt : Nat) (hqt : qt < 18446744073709551616)
+    (h0 : 0 < qf ∨ ∀ f, f ∈ fs → ∀ id ∈ f.tbl, id ≠ ⟨0, 0⟩) :
+    scanStore fs qf qt = scanAllT fs qf qt := by
+  apply scanStore_eq fs _ hsorted hrid qf qt hqt h0
+  intro f hf id hid a b h1 h2 hb
+  rcases hok f hf with ⟨g, hg, hinfo, hsub⟩
+  simp only [TFrac.toFrac] at hid ⊢
+  rcases List.mem_map.1 hid with ⟨x, hx, rfl⟩
+  rw [← hinfo]
+  exact sound_of_ok hg (x.mid, x.rid) (hsub x hx) a b h1 h2 hb
+
+/-- non-vacuity: the hypotheses hold for a sealed fraction with a distribution and its table in LID order, and
+the theorem then gives the concrete answer -/
+example :
+    let f : TFrac := ⟨FracInfo.sealed consts 1000000000000 [[999998800000], [999999999999]],
+                      [⟨999999999999, 8⟩, ⟨999998800000, 7⟩]⟩
+    scanStore [f] 999998800000 999999000000 = [⟨999998800000, 7⟩] := by
+  intro f
+  have h := c14_narrowed_pruned_eq_unpruned [f]
+    (fun x hx => by
+      rw [List.mem_singleton] at hx; subst hx
+      exact ⟨_, FracOK.sealed 1000000000000 [[(999998800000, 7)], [(999999999999, 8)]], rfl, by decide⟩)
+    (fun x hx => by rw [List.mem_singleton] at hx; subst hx; decide)
+    (fun x hx => by rw [List.mem_singleton] at hx; subst hx; decide)
+    999998800000 999999000000 (by decide) (Or.inl (by decide))
+  rw [h]; decide
 
 /-- non-vacuity: a sealed fraction with a distribution and an active one; the range holds documents of both -/
 example :
@@ -211,48 +251,31 @@ example :
     scanPruned fs 999999999999 1000000000500 = [(999999999999, 8), (1000000000500, 9)] ∧
     (filterInRange fs 999998900000 999999900000).length = 0 := by decide
 
-/-! ## The side condition cannot be dropped for the code as it is -/
+/-! ## History: the defect this property found (fixed in /repo by c7b3453) -/
 
-/-- **Witness (fetch).**  Sealed fraction created at 10^12 ms with documents 20 min and 1 ms before creation (so it
-has a distribution; the first document sits in bucket 1).  A fetch request for that document together with one
-unknown ID whose MID is `2^63` makes `groupIDsByFraction` call `FilterInRange(999998800000, 2^63)`:
-`MID.Time()` reads `2^63` as a time before 1970, `midToIndex` gives 0 < 1, `HasBitsIn(1, 0)` is false and the
-fraction is dropped although it holds the requested document. -/
-theorem c14_wrap_counterexample :
-    let f : Frac := ⟨FracInfo.sealed consts 1000000000000 [[999998800000], [999999999999]],
-                     [(999998800000, 7), (999999999999, 8)]⟩
-    f ∈ holders [f] (999998800000, 7) ∧
-    candidates [f] 999998800000 9223372036854775808 (999998800000, 7) = [] ∧
-    candidates [f] 999998800000 999998800000 (999998800000, 7) = [f] ∧
-    scanPruned [f] 999998800000 9223372036854775808 = [] ∧
-    scanAll [f] 999998800000 9223372036854775808 = [(999998800000, 7), (999999999999, 8)] := by
+/-- **Witness, before the fix.**  Sealed fraction created at 10^12 ms with documents 20 min and 1 ms before
+creation (it has a distribution; the first document sits in bucket 1).  A fetch of that document together with an
+unknown ID whose MID is `2^63` makes `groupIDsByFraction` call `FilterInRange(999998800000, 2^63)`: `MID.Time()`
+reads `2^63` as a time before 1970, `midToIndex` gives 0 < 1, `HasBitsIn(1, 0)` is false: the old check dropped
+the fraction although it holds the requested document.  The fixed check keeps it. -/
+theorem c14_wrap_counterexample_before_fix :
+    let info := FracInfo.sealed consts 1000000000000 [[999998800000], [999999999999]]
+    FracInfo.isIntersectingOld info 999998800000 9223372036854775808 = false ∧
+    FracInfo.isIntersectingOld info 999998800000 999998800000 = true ∧
+    FracInfo.isIntersecting info 999998800000 9223372036854775808 = true := by
   decide
 
-/-- the repair proposed for `MIDsDistribution.IsIntersecting`: answer `true` (cannot prune) when the ends are not
-ordered as times -/
-def isIntersectingFixed (d : Dist) (qf qt : Nat) : Bool :=
-  if d.bucket = 0 then true
-  else if toInt64 qf > toInt64 qt then true
-  else Dist.isIntersecting d qf qt
-
-/-- with the repair the side condition disappears -/
-theorem c14_dist_sound_fixed (f t b : Int) (hb : 0 < b) (hft : f ≤ t) (ms : List Nat) (m qf qt : Nat)
-    (hm : m ∈ ms) (h1 : qf ≤ m) (h2 : m ≤ qt) (hqt : qt < 18446744073709551616) :
-    isIntersectingFixed (ms.foldl Dist.add (Dist.new f t b)) qf qt = true := by
-  unfold isIntersectingFixed
+/-- on ranges whose ends are ordered as times the fix changes nothing (it only adds answers `true`) -/
+theorem c14_fix_conservative (d : Dist) (qf qt : Nat) :
+    Dist.isIntersectingOld d qf qt = true → Dist.isIntersecting d qf qt = true := by
+  unfold Dist.isIntersectingOld Dist.isIntersecting
+  intro h
   split
   · rfl
   · split
     · rfl
-    · rename_i hle
-      have hs : SameSide qf qt := by
-        unfold SameSide
-        unfold toInt64 at hle
-        split at hle <;> split at hle <;> omega
-      have := c14_dist_sound f t b hb hft ms m qf qt hm h1 h2 hqt hs
-      have hfold := bit_foldl_add (wf_new hb hft) ms
-      rw [isIntersecting?_eq_some hfold.1] at this
-      injection this
+    · rename_i hb _
+      simpa [hb] using h
 
 /-! ## Obligations on facts re-extracted from /repo on every run
 
@@ -296,7 +319,7 @@ theorem c14_x_dist_size_index :
 theorem c14_x_dist_add_intersect :
     distAdd = ["i := d.midToIndex(mid)", "d.bitmask.Set(i, true)"] ∧
     distIsUndefined = ["return d.bucket == 0"] ∧
-    distIsIntersecting = ["if d.isUndefined() { return true }",
+    distIsIntersecting = ["if d.isUndefined() { return true }", "if from.Time().After(to.Time()) { return true }",
       "return d.bitmask.HasBitsIn(d.midToIndex(from), d.midToIndex(to))"] ∧
     distNew = ["d := &MIDsDistribution{ from: from.UTC(), to: to.UTC(), bucket: bucket, }",
       "d.bitmask = util.NewBitmask(d.size())", "return d"] := by decide
